@@ -25,4 +25,9 @@ def regenerate(repo, th, svh=None):
            "Local Open Scope N_scope.\n\n" + body)
     info['gen_Consts.v'] = 'rewritten' if write_if_changed(os.path.join(th, 'gen_Consts.v'), src) else 'unchanged'
     info['consts'] = [l for l in body.split('\n') if l][:12]
+    r = subprocess.run([svh, 'unicode'], stdout=subprocess.PIPE, stderr=subprocess.PIPE)
+    if r.returncode != 0:
+        raise RuntimeError('svh unicode failed: ' + r.stderr.decode()[-500:])
+    src = (HEADER + "From Coq Require Import List NArith.\nImport ListNotations.\nLocal Open Scope N_scope.\n\n" + r.stdout.decode())
+    info['gen_Unicode.v'] = 'rewritten' if write_if_changed(os.path.join(th, 'gen_Unicode.v'), src) else 'unchanged'
     return info
